@@ -248,13 +248,9 @@ impl<T: Fits64> std::hash::Hash for Set64<T> {
 
 impl<T: Fits64> std::iter::FromIterator<T> for Set64<T> {
     fn from_iter<I: IntoIterator<Item = T>>(iter: I) -> Self {
-        let iter = iter.into_iter();
-        let (sz, _) = iter.size_hint();
-        let mut c = Set64::with_capacity(sz);
-        for i in iter {
-            c.insert(i);
-        }
-        c
+        // Collect through `SetU64`, which sorts the items first: a set that fits the
+        // inline or dense representation then gets it whatever the order of the items.
+        Set64(iter.into_iter().map(|x| x.to_u64()).collect(), PhantomData)
     }
 }
 
